@@ -100,7 +100,9 @@ func (vc *VC) verifyBody() {
 		b := vc.bindSpec(fi.Spec, recv, args, nil)
 		for _, c := range fi.Spec.Clauses {
 			if c.Kind == "requires" {
+				vc.curLabel = "req." + c.Name
 				vc.assume(st, vc.evalClause(st, fi.Spec, c.Expr, st))
+				vc.curLabel = ""
 			}
 		}
 		vc.unbind(b)
@@ -160,6 +162,10 @@ func (vc *VC) verifyBody() {
 		case "ensures":
 			t := vc.evalClause(exit, fi.Spec, c.Expr, vc.entry)
 			vc.oblige(exit, "post", c.Name, c.Pos, t, "postcondition "+c.Name)
+			// later postconditions may use earlier ones as lemmas (each is itself an obligation)
+			vc.curLabel = "post." + c.Name
+			vc.assume(exit, t)
+			vc.curLabel = ""
 		}
 	}
 	vc.unbind(b)
@@ -229,6 +235,24 @@ func (vc *VC) execEffect(st *State, s ast.Stmt) {
 			}
 			v := vc.evalScalar(st, call.Args[1])
 			vc.ghostWrite(st, target, v.T)
+			return
+		}
+		if id != nil && id.Name == "setall" {
+			// setall(gh_f(a1..an-1, _), v): every point of the last dimension becomes v
+			target, ok := call.Args[0].(*ast.CallExpr)
+			if !ok {
+				panic(unsupported("setall() target must be a ghost function application"))
+			}
+			v := vc.evalScalar(st, call.Args[1])
+			fn, _ := vc.calleeFunc(target)
+			name, sorts, res, hs := vc.ghostHeap(fn)
+			h := vc.heapGet(st, name, hs)
+			var idx []string
+			for _, a := range target.Args[:len(target.Args)-1] {
+				idx = append(idx, vc.evalScalar(st, a).T)
+			}
+			cst := fmt.Sprintf("((as const %s) %s)", ArrSort(sorts[len(sorts)-1], res), v.T)
+			vc.heapSet(st, name, hs, nestedStore(h, idx, cst))
 			return
 		}
 		if id != nil && id.Name == "havoc" {
